@@ -1,6 +1,7 @@
 """C12 — timezone settings preserve the instant; awareness follows the setting (symx, public API entry)."""
 import datetime as _dt
 import re
+import sys
 
 import z3
 
@@ -28,7 +29,9 @@ ASSUMPTIONS = [
     "process-local zone with transitions: tzlocal's get_localzone() is stubbed by a model of the zoneinfo object it "
     "returns (offset look-ups by wall clock with fold=0 and by instant, from the same zoneinfo-derived table; look-ups "
     "fork per interval); datetime.now()/fromtimestamp()/astimezone() without a zone go through it; the clock is assumed "
-    "to lie inside the table's window; replayed natively with the TZ environment variable set",
+    "to lie inside the table's window; module-level constants derived from the local offset at import time are set to "
+    "the offset in force at the clock instant (the process has just started); replayed natively with the TZ environment "
+    "variable set and those constants re-evaluated under the frozen clock",
     "bounded claim: ordered pairs drawn from a pool of FIXED-OFFSET zone spellings (pytz UTC, table offsets and static "
     "abbreviations that are not tz-database names, 'local' = the stubbed process zone UTC); zones with DST transitions "
     "- in this pytz that includes names such as 'EST' - are outside (pytz searches transition tables in C): DESIGN.md",
@@ -245,6 +248,12 @@ def h_dst(parser, A, B, aware, y0, y1, b_off=None, local=None):
             clk = dates.SDateTime._clock()
             # stated bound: the clock lies inside the window the zone table covers
             core.assume(mkbool(z3.And(_zi(clk.year) >= y0, _zi(clk.year) <= y1)))
+            # module-level state computed at import ("now" of a process that has just started): the local offset constant
+            n = C.ns()
+            off_now = _dt.timedelta(seconds=dates.LOCAL[0].offset_s_utc(clk))
+            for mod in list(sys.modules.values()):
+                if getattr(mod, "__name__", "").split(".")[0] == "dateparser" and hasattr(mod, "local_tz_offset"):
+                    mod.local_tz_offset = off_now
         st = _settings(A_set, B, aware)
         return _h_dst_body(parser, _zone_of(A_set), B, aware, y0, y1, st)
     return fn
